@@ -23,7 +23,7 @@ RULE = ('histories = all sequences over {start, shutdown} of length 1..4; enviro
         'compared with the model, and after a shutdown a matching trace event is delivered to the handler; non-trivial = history has a '
         'shutdown after a start with a fault, a pre-existing hook, or NO_TRACE'
         " ; start and shutdown on different threads x {sys hook, threading hook, caller's hook, NO_TRACE}; a second start() / a shutdown() arriving while the first start() is parked in a plugin's resource(); the starting thread ended and its ident given to a later thread (lazy / calling shutdown itself)")
-RULE_ADDED = "rounds 3-5: the starting thread's ident recycled; lifecycle sequences: two agents (either leaves first), restart from inside pending work, restart from another thread, start() entered again inside start(), the same agent restarted against a faithful service"
+RULE_ADDED = "rounds 3-5: the starting thread's ident recycled; lifecycle sequences: two agents (either leaves first), restart from inside pending work, restart from another thread, start() entered again inside start(), the same agent restarted against a faithful service; three handlers x every sequence of their starts and shutdowns (depth 5 quick / 7 thorough) x 3 hook environments x 2 final shutdown orders (agents-bfs); restart under a second live agent; shutdown() arriving inside start()"
 RULE = RULE + ' ; ' + RULE_ADDED
 ASSUMPTIONS = ['a start after a shutdown (restart) may be refused or work, but must leave hooks consistent with `started`',
                'the poll interval is long (no tick during the sequential histories); ticks racing shutdown are explored in the E1 harness']
